@@ -23,7 +23,7 @@ from redress import (
 from . import loop as simloop
 from . import seams
 from .clock import SimClock
-from .env import RAISE_CODE, CallState, Env, FalsySpyBreaker, GateRecBreaker, RecBreaker, RecBudget, SpyBreaker, fnum
+from .env import CURRENT_CALL, RAISE_CODE, CallState, Env, FalsySpyBreaker, GateRecBreaker, RecBreaker, RecBudget, SpyBreaker, fnum
 
 SYNC_ENTRIES = ["Retry", "Policy", "RetryPolicy", "Retry.context", "Policy.context", "RetryPolicy.context",
                 "decorator", "Retry.from_config", "RetryPolicy.from_config"]
@@ -121,8 +121,11 @@ class Built:
                 return (call if call is not None else pol), None
             return pol, call
 
-        h_pol, h_call = trio("handler", env.make_handler)
-        b_pol, b_call = trio("before_sleep", lambda w: env.make_before_sleep(w, bs_async))
+        def sized(key, fn):
+            return _SizedCallable(fn) if place.get(key) == "sized" else fn
+
+        h_pol, h_call = trio("handler", lambda w: sized("handler_shape", env.make_handler(w)))
+        b_pol, b_call = trio("before_sleep", lambda w: sized("bs_shape", env.make_before_sleep(w, bs_async)))
         def mk_sleeper(w):
             sl = env.make_sleeper(w, sl_kind)
             # a sleeper *object* that is also an (empty) container (e.g. a recorder deriving from list): falsy, callable
@@ -181,6 +184,8 @@ class Built:
         self._att_pol = dict(on_attempt_start=a_pol_s, on_attempt_end=a_pol_e)
         self._att_call = (a_call_s, a_call_e)
         self._targets = {}
+        self._ctx_calls = {}
+        self.shared_context = bool(scn.get("concurrent")) and bool(scn.get("shared_context"))
         self.target_for(entry)
 
     @staticmethod
@@ -229,6 +234,9 @@ class Built:
                 if name in late and rkw.get(name) is not None:
                     kw[name] = None
                     assign[name] = rkw[name]
+            if "classifier" in late:
+                kw["classifier"] = lambda exc: ErrorClass.PERMANENT       # decoy: replaced before any call
+                assign["classifier"] = rkw["classifier"]
             if "deadline" in late:
                 kw["deadline_s"] = 7777.0
                 assign["deadline"] = timedelta(seconds=rkw["deadline_s"])
@@ -254,6 +262,10 @@ class Built:
             decorated = retry_decorator(**dkw)(env.op_async if is_async else env.op_sync)
         else:
             raise AssertionError(entry)
+        if target is not None and hasattr(target, "circuit_breaker"):
+            if not hasattr(env, "policy_targets"):
+                env.policy_targets = []
+            env.policy_targets.append(target)
         self._targets[entry] = (target, decorated)
         return target, decorated
 
@@ -332,12 +344,13 @@ def _invoke_sync(built: Built, env: Env, e: str, how: str):
     target, decorated = built.target_for(e)
     if e == "decorator":
         return decorated()
+    op = env.op_for(env.cs().cid, False)
     if e.endswith(".context"):
         with target.context(**kw) as call:
-            return call(env.op_sync)
+            return call(op)
     if how == "execute":
-        return target.execute(env.op_sync, capture_timeline=_timeline_arg(built), **kw)
-    return target.call(env.op_sync, **kw)
+        return target.execute(op, capture_timeline=_timeline_arg(built), **kw)
+    return target.call(op, **kw)
 
 
 async def _invoke_async(built: Built, env: Env, e: str, how: str):
@@ -345,12 +358,19 @@ async def _invoke_async(built: Built, env: Env, e: str, how: str):
     target, decorated = built.target_for(e)
     if e == "decorator":
         return await decorated()
+    op = env.op_for(env.cs().cid, True)
     if e.endswith(".context"):
+        if built.shared_context:
+            # overlapping calls go through ONE bound context object
+            call = built._ctx_calls.get(e)
+            if call is None:
+                call = built._ctx_calls[e] = await target.context(**kw).__aenter__()
+            return await call(op)
         async with target.context(**kw) as call:
-            return await call(env.op_async)
+            return await call(op)
     if how == "execute":
-        return await target.execute(env.op_async, capture_timeline=_timeline_arg(built), **kw)
-    return await target.call(env.op_async, **kw)
+        return await target.execute(op, capture_timeline=_timeline_arg(built), **kw)
+    return await target.call(op, **kw)
 
 
 def _end_event(env, cs, built, entry, how, result=None, exc=None):
@@ -383,6 +403,8 @@ async def run_call_async(built: Built, env: Env, cid: int, script: dict) -> None
     task = asyncio.current_task()
     env._cs_by_task[task] = cs
     cs.task = task
+    cs.env_id = id(env)
+    CURRENT_CALL.set(cs)
     entry, how = script.get("entry", built.entry), script.get("how", built.how)
     cs.res_enabled = bool(env.cfg.get("result_classifier")) and entry != NORETRY
     env.ev("CALL_BEGIN", entry=entry, how=how)
@@ -461,7 +483,23 @@ def run_retry_scenario(scn: dict, chooser=None):
             for cid, script in enumerate(scn["calls"], scn.get("cid_base", 0)):
                 for op in script.get("before") or []:
                     apply_component_op(env, built, op)
-                run_call_sync(built, env, cid, script)
+                if script.get("on_thread"):
+                    # the same policy object is used from another OS thread (one call at a time: no interleaving)
+                    import threading as _threading
+                    box = []
+
+                    def _run(cid=cid, script=script):
+                        try:
+                            run_call_sync(built, env, cid, script)
+                        except BaseException as exc:  # noqa: BLE001 - re-raised on the driving thread
+                            box.append(exc)
+                    t = _threading.Thread(target=_run, name=f"call{cid}")
+                    t.start()
+                    t.join()
+                    if box:
+                        raise box[0]
+                else:
+                    run_call_sync(built, env, cid, script)
         else:
             conc = scn.get("concurrent", False)
 
